@@ -853,6 +853,8 @@ impl<T> Sender<T> {
                 // removing receive failed to wait for the signal response
                 #[cfg(kanal_verif)]
                 crate::verif::rt::probe(crate::verif::rt::probe::CANCEL_SEND_LOST);
+                #[cfg(kanal_verif)]
+                crate::verif::rt::unbounded_wait(&sig as *const Signal<T> as usize);
                 if !sig.wait() {
                     // Safety: data failed to move, sender should drop it if it
                     // needs to
@@ -936,6 +938,8 @@ impl<T> Sender<T> {
                 // removing receive failed to wait for the signal response
                 #[cfg(kanal_verif)]
                 crate::verif::rt::probe(crate::verif::rt::probe::CANCEL_SEND_LOST);
+                #[cfg(kanal_verif)]
+                crate::verif::rt::unbounded_wait(&sig as *const Signal<T> as usize);
                 if !sig.wait() {
                     *data = Some(ManuallyDrop::into_inner(d));
                     return Err(SendErrorTimeout::Closed);
@@ -1235,6 +1239,8 @@ impl<T> Receiver<T> {
                 // removing receive failed to wait for the signal response
                 #[cfg(kanal_verif)]
                 crate::verif::rt::probe(crate::verif::rt::probe::CANCEL_RECV_LOST);
+                #[cfg(kanal_verif)]
+                crate::verif::rt::unbounded_wait(&sig as *const Signal<T> as usize);
                 if !sig.wait() {
                     return Err(ReceiveErrorTimeout::Closed);
                 }
